@@ -15,7 +15,7 @@
 #include <string.h>
 #include <sys/cdefs.h>
 
-#define VH_MAXTOK 70000
+#define VH_MAXTOK 1200000
 typedef struct {
     char **tok;
     int n;
